@@ -38,6 +38,28 @@
 (*  scope machine     Declaration.evaluate + VarTable (NameStep)           *)
 (*  signature machine Environment.add_funcs (FuncStep)                     *)
 (*                                                                         *)
+(* POSITIONS (field 1 of a case line; <e> = expression of the universe,    *)
+(*  T = target type; the statement stands in the body of the test function *)
+(*  unless said otherwise; cfg Types_<family>_<tier>.cfg)                  *)
+(*  family expr                                                            *)
+(*   stmt `<e>;`  decl `T x = <e>;`  forinit `for (T x = <e>; t; ) {}`     *)
+(*   nesteddecl (in else/while)  trydecl (try body and undo handler of a   *)
+(*   you-function)  deadcode `return; T x = <e>;`  arrinit `T x[<e>];`     *)
+(*   assign `<l> = <e>;`  inc `<l> op= <e>;`  forstep (for-step position)  *)
+(*   arg `f(<e>)` for `empty f(T p0)`  sleep `sleep(<e>)`  write           *)
+(*   `write(<e>)` (+ overload index)  ret `return <e>;` in `T g(..)`       *)
+(*   noret `return;` / no return in `T g(..)`  if / while / for conditions *)
+(*   operand `<e> op <o>`, `<o> op <e>`  unary  spec `<e> ?? <o>` (in a    *)
+(*   you-function)  specdecl `T x = <o> ?? <e>;`  idxsrc `<e>[<o>]`        *)
+(*   idxidx `<o>[<e>]`  len `<e>.length`  elem `[<e>, <o>]`  is `<e> is T` *)
+(*  family call                                                            *)
+(*   overload / overload2: <= 3 user overloads `f` (one / two parameters)  *)
+(*   in every declaration order x argument(s); arity; writeext: a user     *)
+(*   overload of the builtin write; undeclared function                    *)
+(*  family struct                                                          *)
+(*   names (scope machine)  funcs (signature machine)  typesyntax          *)
+(*   gdecl `T gx = <e>;` / garrinit `T gx[<e>];` at global scope           *)
+(*                                                                         *)
 (* RULES  [R] = README.rst (section), [T] = pinned by tests/test_typecheck *)
 (*        [C] = README silent, evident intent of the code                  *)
 (*  T1 [R Types] scalars int byte bool string; arrays of scalars, never    *)
@@ -119,6 +141,9 @@
 (*     README T5, rejected by hidc (the literal is typed before the cast). *)
 (*  D5 `x is const T[]`, const return types: not expressible in the        *)
 (*     grammar; README silent (TypeSyntax family).                         *)
+(*  D6 an ILL-typed statement after `return;` (unreachable): hidc drops    *)
+(*     unreachable statements before typechecking them (blocks.py), the    *)
+(*     README does not say whether dead code must be well typed.           *)
 (***************************************************************************)
 EXTENDS Integers, Sequences, FiniteSets, TLC
 
@@ -599,13 +624,16 @@ ExprCtxs ==
     \cup {Ctx("forinit", T, "", None) : T \in ForInitT}
     \cup {Ctx("forstep", "", op, l) : op \in {"", "add"}, l \in LhsStep}
     \cup {Ctx("nesteddecl", T, "", None) : T \in DeclT}
+    \cup {Ctx("trydecl", T, "", None) : T \in ForInitT}
+    \cup {Ctx("deadcode", T, "", None) : T \in {"int", "byte", "const int[]"}}
+    \cup {Ctx("sleep", "int", "", None)}
 
 \* the expressions a context is exercised with
 Univ(c) ==
     CASE c.pos \in {"stmt", "write", "if", "while", "for", "len", "decl", "arg", "ret", "is", "arrinit",
                     "idxsrc"} -> (E)
       [] c.pos = "assign" -> (IF c.o \in LhsFull THEN E ELSE ESmall)
-      [] c.pos \in {"inc", "forinit", "forstep", "nesteddecl"} -> (ESmall)
+      [] c.pos \in {"inc", "forinit", "forstep", "nesteddecl", "trydecl", "deadcode", "sleep"} -> (ESmall)
       [] c.pos \in {"operand", "unary", "spec", "idxidx", "elem"} -> (EOp)
       [] c.pos = "specdecl" -> (SpecDeclS)
 
@@ -625,7 +653,11 @@ ExprVerdict(c, e) ==
     LET x == Built(c, e) IN
     CASE c.pos \in {"stmt", "operand", "unary", "spec", "idxsrc", "idxidx", "len", "elem", "is"}
              -> (Tri({x}, LAMBDA r : StmtOK(r, x)))
-      [] c.pos \in {"decl", "forinit", "nesteddecl"} -> (Tri({e}, LAMBDA r : DeclOK(r, c.tgt, e)))
+      [] c.pos \in {"decl", "forinit", "nesteddecl", "trydecl"} -> (Tri({e}, LAMBDA r : DeclOK(r, c.tgt, e)))
+      \* D6: a statement after `return;` is unreachable; hidc drops it before typechecking it.  Well typed:
+      \* accept; ill typed: README silent, dontcare.
+      [] c.pos = "deadcode" -> (IF Tri({e}, LAMBDA r : DeclOK(r, c.tgt, e)) = "accept" THEN "accept" ELSE "dontcare")
+      [] c.pos = "sleep" -> (Tri({e}, LAMBDA r : ArgOK(r, c.tgt, e)))
       [] c.pos = "forstep" -> (IF c.op = "" THEN Tri({c.o, e}, LAMBDA r : AssignOK(r, c.o, e))
                                ELSE Tri({c.o, e}, LAMBDA r : IncAssignOK(r, c.op, c.o, e)))
       [] c.pos = "specdecl" -> (Tri({x}, LAMBDA r : DeclOK(r, c.tgt, x)))
@@ -640,7 +672,8 @@ ExprVerdict(c, e) ==
 ExprWhy(c, e) ==
     LET x == Built(c, e) IN
     CASE c.pos \in {"stmt", "operand", "unary", "spec", "idxsrc", "idxidx", "len", "elem", "is"} -> (WhyExpr(x))
-      [] c.pos \in {"decl", "forinit", "nesteddecl"} -> (WhyDecl(c.tgt, e))
+      [] c.pos \in {"decl", "forinit", "nesteddecl", "trydecl", "deadcode"} -> (WhyDecl(c.tgt, e))
+      [] c.pos = "sleep" -> (WhyArg(c.tgt, e))
       [] c.pos = "forstep" -> (WhyAssign(c.o, IF c.op = "" THEN e ELSE N2(c.op, c.o, e)))
       [] c.pos = "specdecl" -> (WhyDecl(c.tgt, x))
       [] c.pos = "arg" -> (WhyArg(c.tgt, e))
@@ -817,11 +850,11 @@ JudgeExpr(P) ==
           /\ Done(ExprId(ctx, e))
 
 ExprStatement == JudgeExpr({"stmt"})
-Declaration == JudgeExpr({"decl", "specdecl", "forinit", "nesteddecl"})
+Declaration == JudgeExpr({"decl", "specdecl", "forinit", "nesteddecl", "trydecl", "deadcode"})
 ArrayInit == JudgeExpr({"arrinit"})
 Assignment == JudgeExpr({"assign"})
 IncAssignment == JudgeExpr({"inc", "forstep"})
-CallArgument == JudgeExpr({"arg"})
+CallArgument == JudgeExpr({"arg", "sleep"})
 BuiltinWrite == JudgeExpr({"write"})
 ReturnValue == JudgeExpr({"ret"})
 Condition == JudgeExpr({"if", "while", "for"})
